@@ -252,6 +252,15 @@ def body(ctx: H.BaseCtx):
         g, r, inv = opt["display_graded"], opt["display_reverse"], opt["display_inverse"]
         try:
             texts = {"str": str(p), "repr": repr(p), "array_str": numpoly.array_str(p), "array_repr": numpy.array_repr(p)}
+            if case.get("explicit"):
+                # the same texts asked for with the formatting arguments spelled out (suppression of small numbers declined)
+                texts.update({
+                    "array_str(suppress_small=False)": numpoly.array_str(p, suppress_small=False),
+                    "array_repr(suppress_small=False)": numpoly.array_repr(p, suppress_small=False),
+                    "array_str(positional None, None, False)": numpoly.array_str(p, None, None, False),
+                    "numpy.array_repr(suppress_small=False)": numpy.array_repr(p, suppress_small=False),
+                    "array_str(max_line_width=1000)": numpoly.array_str(p, max_line_width=1000),
+                })
         except Exception as e:
             ctx.unexpected_exception(e, "str/repr")
             return
@@ -260,7 +269,7 @@ def body(ctx: H.BaseCtx):
         shape = tuple(mp.shape)
         for kind, text in texts.items():
             body_text, sep = text, " "
-            if kind in ("repr", "array_repr"):
+            if "repr" in kind:
                 if not (text.startswith("polynomial(") and text.endswith(")")):
                     ctx.fail("format", "%s is %r" % (kind, text[:60]))
                     continue
@@ -326,7 +335,7 @@ def gen_cases(tier: str, seed: int) -> List[Dict]:
                 opt = dict(b)
                 opt.update(rng.choice(signs))
                 n += 1
-                cases.append({"id": "%s-%03d-text" % (PROP, n), "op": "text", "poly": spec, "options": opt, "limits": lim})
+                cases.append({"id": "%s-%03d-text" % (PROP, n), "op": "text", "poly": spec, "options": opt, "explicit": n % 4 == 0, "limits": lim})
     # to_sympy on single (0-d) polynomials, default display options
     for names, exps in monosets:
         for _ in range(2 if quick else 10):
